@@ -15,6 +15,11 @@ def families(tier):
         F("condput", "append", "append", op4="append", att=(2, 2, 2), fail=0, crash=0, r3=99),
         F("condput", "append", "append", att=(1, 1, 1), fail=1, crash=0),
         F("unsafe", "append", "append", fail=0, crash=0),
+        # bare handler writers: CommitHandler::commit itself, manifests without a transaction file
+        dict(F("external", "bare", "bare", att=(1, 1, 1), fail=0, lost=1, crash=0), cap=200),
+        F("condput", "bare", "bare", att=(1, 1, 1), fail=0, lost=1, crash=0),
+        F("rename", "bare", "bare", att=(1, 1, 1), fail=1, lost=1, crash=0),
+        F("lock", "bare", "bare", att=(1, 1, 1), fail=0, lost=0, crash=1),
     ]
     if not q:
         fams += [
@@ -23,6 +28,10 @@ def families(tier):
             F("lock", "append", "append", op4="append", att=(2, 2, 2), fail=0, lost=0, crash=1, r3=99),
             F("external", "append", "append", fail=1, lost=1, crash=1, r5=0),
             F("rename", "overwrite", "overwrite", fail=1, lost=1, crash=1),
+            F("external", "bare", "bare", op4="bare", att=(1, 1, 1), fail=0, lost=1, crash=0, r3=99),
+            F("external", "bare", "bare", att=(1, 1, 1), fail=1, lost=1, crash=1),
+            F("condput", "bare", "bare", op4="bare", att=(1, 1, 1), fail=1, lost=1, crash=1),
+            F("unsafe", "bare", "bare", att=(1, 1, 1), fail=0, lost=0, crash=0),
         ]
     return fams
 
@@ -34,7 +43,12 @@ def run(prop, tier, replay):
         (F("unsafe", "append", "append", fail=0, crash=0, r3=99), "OneManifestPerVersionStrict"),
         # a lease that expires under a live holder breaks mutual exclusion (documented assumption)
         (F("lock", "append", "append", fail=0, crash=0, r3=99, dev=("LeaseExpiresWhileHeld",)), "OneManifestPerVersionStrict"),
+        # "no transaction file name = no transaction file name" in the lost-response recovery lets the loser of an
+        # already finalized version overwrite the published manifest
+        (F("external", "bare", "bare", att=(1, 1, 1), fail=0, crash=0, r3=99, dev=("EmptyTxnIdentityMatches",)),
+         "ManifestsImmutableInv"),
     ]
-    return cc.run_check(prop, tier, replay, families(tier), teeth=teeth,
+    return cc.run_check(prop, tier, replay, families(tier), teeth=teeth, cap_quick=45,
+                        expect_counts=("bareExtGetFinal", "bareCommits"),
                         expect_pcs=("c_put", "c_stage", "c_rename", "c_delst", "c_lock", "c_head", "c_lput", "c_unlock",
                                     "c_ext", "f_copy", "w_list"))
